@@ -445,7 +445,6 @@ var extremeInts = []int{math.MinInt, math.MinInt + 1, math.MinInt32, math.MaxInt
 
 func isExtreme(v int) bool { return v <= math.MinInt32 || v >= math.MaxInt32 }
 
-
 // c15PadLarge: the padding contracts at sizes where an implementation that builds the padding in blocks
 // (doubling, a bounded copy buffer) changes regime: around powers of two from 1 KiB to 64 KiB and a few
 // sizes in between, with tokens whose length divides none of them.
